@@ -324,9 +324,7 @@ def run(tier, seed):
                   ("explore", 33, True, False, False, 0), ("explore", 65, False, False, False, 0), ("explore", 129, True, False, False, 0),
                   ("free", 33, True, 5), ("free", 65, False, 5), ("free", 257, True, 2), ("free", 1025, False, 1),
                   ("explore", 2, True, False, "unregistered", 3), ("explore", 33, True, False, "unregistered", 0), ("explore", 129, True, False, "unregistered", 0),
-                  ("explore", 3, True, False, "mixedcls", 2), ("explore", 9, True, False, "mixedcls", 1),
-                  ("explore", 3, True, False, "procs3", 2), ("explore", 4, False, False, "procs3", 2), ("explore", 2, True, False, "procs8", 2),
-                  ("explore", 5, False, False, "procs4", 2), ("explore", 9, True, False, "procs16", 1)]
+                  ("explore", 3, True, False, "mixedcls", 2), ("explore", 9, True, False, "mixedcls", 1)]
     else:
         shards = [("explore", 2, False, False, False, None), ("explore", 2, True, False, False, 3),
                   ("explore", 3, False, False, False, 3), ("explore", 3, True, False, False, 2),
@@ -340,10 +338,7 @@ def run(tier, seed):
                   ("explore", 33, True, False, False, 0), ("explore", 65, False, False, False, 0), ("explore", 129, False, False, False, 0),
                   ("free", 33, True, 3), ("free", 65, False, 3), ("free", 257, False, 1),
                   ("explore", 2, True, False, "unregistered", 1), ("explore", 33, True, False, "unregistered", 0), ("explore", 65, True, False, "unregistered", 0),
-                  ("explore", 3, True, False, "mixedcls", 1), ("explore", 9, True, False, "mixedcls", 0),
-                  # other worker counts: three workers, more workers than designs
-                  ("explore", 3, True, False, "procs3", 1), ("explore", 4, False, False, "procs3", 1), ("explore", 2, True, False, "procs8", 1),
-                  ("explore", 5, False, False, "procs4", 1), ("explore", 9, True, False, "procs16", 0)]
+                  ("explore", 3, True, False, "mixedcls", 1), ("explore", 9, True, False, "mixedcls", 0)]
     split = []
     for sh in shards:
         if sh[0] == "explore":
